@@ -119,6 +119,7 @@ type Ctx struct {
 	nontrivial  atomic.Int64
 	capHit      atomic.Bool
 	stretched   atomic.Bool
+	procs       atomic.Int32 // GOMAXPROCS set by WithProcs (0: the default)
 	internalErr []string
 	notes       []string
 }
@@ -263,6 +264,9 @@ func (c *Ctx) Fail(cs any, fs ...Failure) {
 	c.mu.Lock()
 	defer c.mu.Unlock()
 	for _, f := range fs {
+		if p := c.procs.Load(); p > 0 {
+			f.Msg += fmt.Sprintf(" [with GOMAXPROCS=%d]", p)
+		}
 		if k := c.matchKnown(f); k != nil {
 			k.hits++
 			if k.first == "" {
@@ -292,6 +296,10 @@ func (c *Ctx) Fail(cs any, fs ...Failure) {
 				if err != nil {
 					c.internalErr = append(c.internalErr, "cannot marshal case: "+err.Error())
 					continue
+				}
+				if p := c.procs.Load(); p > 0 {
+					// found under a non-default GOMAXPROCS: the replay has to set it again
+					b, _ = json.Marshal(procsCase{Procs: int(p), Case: b})
 				}
 				raw = b
 			}
@@ -535,8 +543,52 @@ func (c *Ctx) runCaseLocked(raw json.RawMessage) []Failure {
 	// call Eval/Set — those use atomics or take mu, so run it unlocked.
 	c.mu.Unlock()
 	defer c.mu.Lock()
+	return c.runCase(raw)
+}
+
+// procsCase wraps a case that was found while GOMAXPROCS was set to a non-default value.
+type procsCase struct {
+	Procs int             `json:"_gomaxprocs"`
+	Case  json.RawMessage `json:"_case"`
+}
+
+func unwrapProcs(raw json.RawMessage) (int, json.RawMessage) {
+	var pc procsCase
+	if json.Unmarshal(raw, &pc) == nil && pc.Procs > 0 && len(pc.Case) > 0 {
+		return pc.Procs, pc.Case
+	}
+	return 0, raw
+}
+
+func (c *Ctx) runCase(raw json.RawMessage) []Failure {
+	if p, inner := unwrapProcs(raw); p > 0 {
+		old := runtime.GOMAXPROCS(p)
+		defer runtime.GOMAXPROCS(old)
+		fs := c.Prop.RunCase(c, inner)
+		for i := range fs {
+			fs[i].Msg += fmt.Sprintf(" [with GOMAXPROCS=%d]", p)
+		}
+		return fs
+	}
 	return c.Prop.RunCase(c, raw)
 }
+
+// WithProcs runs f with GOMAXPROCS set to n (the process environment is an input too: code that
+// splits work by the number of processors behaves differently for 1, 2, a non-power-of-two, or more
+// than the machine has).  Failures recorded meanwhile remember n, and their replay sets it again.
+// Must not overlap with other parallel sections of the check.
+func (c *Ctx) WithProcs(n int, f func()) {
+	old := runtime.GOMAXPROCS(n)
+	c.procs.Store(int32(n))
+	defer func() {
+		c.procs.Store(0)
+		runtime.GOMAXPROCS(old)
+	}()
+	f()
+}
+
+// Procs returns the GOMAXPROCS value set by WithProcs (0 outside).
+func (c *Ctx) Procs() int { return int(c.procs.Load()) }
 
 // ReplayFile re-executes the case stored in a replay file and prints what it observes.
 func (c *Ctx) ReplayFile(path string) int {
@@ -558,7 +610,7 @@ func (c *Ctx) ReplayFile(path string) int {
 		fmt.Println("INTERNAL-ERROR: property has no replayer")
 		return 2
 	}
-	fs := c.Prop.RunCase(c, rep.Case)
+	fs := c.runCase(rep.Case)
 	fmt.Printf("replay of %s: case %s\n", path, rep.Case)
 	hit := false
 	for _, f := range fs {
@@ -568,7 +620,8 @@ func (c *Ctx) ReplayFile(path string) int {
 		}
 	}
 	if c.Prop.GoTest != nil {
-		if src := c.Prop.GoTest(rep.Case); src != "" {
+		_, inner := unwrapProcs(rep.Case)
+		if src := c.Prop.GoTest(inner); src != "" {
 			tp := strings.TrimSuffix(path, ".json") + "_test.go"
 			if os.WriteFile(tp, []byte(src), 0o644) == nil {
 				fmt.Printf("plain Go test for this case written to %s (copy it into the repository root and run: go test -run TestReplay .)\n", tp)
